@@ -114,6 +114,9 @@ type Exec struct {
 	inlineDepth int
 	initGlobals bool
 	modelWrite int
+	hideFrom, hideTo token.Pos // spec name lookup skips Go variables declared in this source range (loop bodies, for invariants)
+	anchorOrd map[*ast.CallExpr]int
+	anchorCnt map[string]int
 	anchorsHit map[string]bool // call anchors (before@/after@) that matched at least one call site
 	litEscapes bool // some function literal of this function may be retained and invoked later
 }
@@ -331,6 +334,9 @@ func (x *Exec) specEnv(st *State) *Env {
 		var best types.Object
 		for o := range st.vars {
 			if o.Name() == name {
+				if x.hideTo > x.hideFrom && o.Pos() >= x.hideFrom && o.Pos() < x.hideTo {
+					continue
+				}
 				if best == nil || o.Pos() > best.Pos() {
 					best = o
 				}
